@@ -5,6 +5,7 @@ import (
 	"os"
 	"path/filepath"
 	"regexp"
+	"strings"
 )
 
 // Known findings: genuine defects of the code under test that are recorded, not repaired.
@@ -16,6 +17,7 @@ type KnownFinding struct {
 	ID       string `json:"id"`
 	Rule     string `json:"rule"`
 	MsgRegex string `json:"msg_regex"`
+	SubPrefix string `json:"sub_prefix"`
 	What     string `json:"what"`
 	re       *regexp.Regexp
 }
@@ -65,6 +67,9 @@ func matchKnown(v *Violation, p *Plan) string {
 			continue
 		}
 		if k.re != nil && !k.re.MatchString(v.Msg) {
+			continue
+		}
+		if k.SubPrefix != "" && !strings.HasPrefix(v.Sub, k.SubPrefix) {
 			continue
 		}
 		return k.ID + ": " + k.What
